@@ -433,6 +433,15 @@ class Mesh:
             nodes = np.intersect1d(nodes, self.boundary_nodes())
         return nodes
 
+    def _facet_midpoints(self) -> ndarray:
+        f = self.facets
+        # a vertex repeated for padding (the triangular facets of prisms)
+        # counts once
+        w = np.ones(f.shape)
+        for i in range(1, f.shape[0]):
+            w[i] = (f[i] != f[:i]).all(axis=0)
+        return (self.p[:, f] * w).sum(axis=1) / w.sum(axis=0)
+
     def facets_satisfying(self,
                           test: Callable[[ndarray], ndarray],
                           boundaries_only: bool = False,
@@ -450,7 +459,7 @@ class Mesh:
             If given, used to orient the set of facets.
 
         """
-        midp = self.p[:, self.facets].mean(axis=1)
+        midp = self._facet_midpoints()
         facets = np.nonzero(test(midp))[0].astype(np.int32)
         if boundaries_only:
             facets = np.intersect1d(facets, self.boundary_facets())
